@@ -12,7 +12,8 @@ from .core import (ndarray, generic, dtype, array, asarray, ModelGap, _mk_scalar
                    _cast, _operand, _wrap_out, _unop, _binop, _prod, _c_strides, _dtype,
                    _broadcast_to, _broadcast_shapes, _nonzero, _zero, _to_real, _is_symbolic,
                    BOOL, INT64, FLOAT64, OBJECT, STR)
-from .scalars import RealT, BVT, TermT, is_custom, unary, lift
+from .scalars import RealT, BVT, TermT, is_custom, unary, lift, note_concrete as _sc_note
+from .scalars import lift as scalars_lift
 
 _bsum = builtins.sum
 _bmin = builtins.min
@@ -528,13 +529,18 @@ def median(a, axis=None, **kw):
 
 def _math_unary(family, pyfn, domain_err=None):
     def f(x, out=None):
+        if isinstance(x, lazyarr):
+            return x._map(lambda v: f(v))
+
         def el(v):
             r = unary(family, v, vec=isinstance(x, ndarray) or isinstance(x, (list, tuple)))
             if r is not None:
                 return r
             v = _bare(v)
             try:
-                return pyfn(v)
+                rr = pyfn(v)
+                _sc_note(family, v, rr)
+                return rr
             except (ValueError, OverflowError):
                 if domain_err is not None:
                     return domain_err(v)
@@ -929,3 +935,156 @@ def concatenate(arrs, axis=0):
         el = [e for a in arrs for e in a._elems()]
         return ndarray._from_flat(el, (len(el),), arrs[0].dtype if arrs else FLOAT64)
     raise ModelGap('concatenate n-d')
+
+
+# ----------------------------------------------------------------- lazy functional arrays
+
+class lazyarr(object):
+    """1-d array of symbolic length given by an index function (used when np.linspace is
+    called with a symbolic number of points): element i is fn(i) for 0 <= i < n.
+    Element-wise arithmetic composes lazily, so the length and the index can stay solver
+    variables (DESIGN.md section 4/C19)."""
+    _symnp_lazy = True
+    ndim = 1
+
+    def __init__(self, n, fn):
+        self.n = n
+        self.fn = fn
+
+    @property
+    def shape(self):
+        return (self.n,)
+
+    @property
+    def size(self):
+        return self.n
+
+    def __len__(self):
+        return self.n
+
+    def __getitem__(self, i):
+        if isinstance(i, slice):
+            start = 0 if i.start is None else i.start
+            step = 1 if i.step is None else i.step
+            if i.stop is not None or step <= 0 or start < 0:
+                raise ModelGap('lazy array slice form')
+            n = self.n
+            f = self.fn
+            m = (n - start + step - 1) // step
+            return lazyarr(m, lambda k: f(start + k * step))
+        i = _bare(i)
+        n = self.n
+        if i < 0:
+            i = i + n
+        if i < 0 or i >= n:
+            raise IndexError('index out of bounds')
+        return self.fn(i)
+
+    def __iter__(self):
+        raise ModelGap('iteration over a lazy array of symbolic length')
+
+    def _map(self, g):
+        f = self.fn
+        return lazyarr(self.n, lambda i: g(f(i)))
+
+    def _zip(self, other, g, swap=False):
+        if isinstance(other, lazyarr):
+            f, h = self.fn, other.fn
+            return lazyarr(self.n, (lambda i: g(h(i), f(i))) if swap else (lambda i: g(f(i), h(i))))
+        if isinstance(other, (ndarray, list, tuple)):
+            raise ModelGap('lazy array combined with an eager array')
+        o = _bare(other)
+        return self._map((lambda x: g(o, x)) if swap else (lambda x: g(x, o)))
+
+    def __add__(self, o):
+        return self._zip(o, lambda a, b: a + b)
+
+    def __radd__(self, o):
+        return self._zip(o, lambda a, b: a + b, True)
+
+    def __sub__(self, o):
+        return self._zip(o, lambda a, b: a - b)
+
+    def __rsub__(self, o):
+        return self._zip(o, lambda a, b: a - b, True)
+
+    def __mul__(self, o):
+        return self._zip(o, lambda a, b: a * b)
+
+    def __rmul__(self, o):
+        return self._zip(o, lambda a, b: a * b, True)
+
+    def __truediv__(self, o):
+        return self._zip(o, lambda a, b: core._e_div(a, b))
+
+    def __rtruediv__(self, o):
+        return self._zip(o, lambda a, b: core._e_div(a, b), True)
+
+    def __pow__(self, o):
+        return self._zip(o, lambda a, b: core._e_pow(a, b))
+
+    def __rpow__(self, o):
+        return self._zip(o, lambda a, b: core._e_pow(a, b), True)
+
+    def __neg__(self):
+        return self._map(lambda x: -x)
+
+
+_eager_linspace = linspace
+
+
+def linspace(start, stop, num=50, endpoint=True, retstep=False, dtype=None, axis=0):  # noqa: F811
+    n = _bare(num)
+    if ch.var_of(n) is None or not endpoint or retstep:
+        return _eager_linspace(start, stop, num, endpoint, retstep, dtype, axis)
+    a, b = _to_real(_bare(start)), _to_real(_bare(stop))
+    a = a if type(a) is RealT else RealT.of(a)
+    b = b if type(b) is RealT else RealT.of(b)
+    if n < 0:
+        raise ValueError('Number of samples, %s, must be non-negative.' % 'n')
+    nm1 = RealT.of(n) - 1
+
+    def elem(i):
+        # NumPy: start + i*step with step = (stop-start)/(num-1); the last sample is `stop`
+        with ch.NoTracing():
+            ie = scalars_lift(i)
+            last = z3.simplify(ie == scalars_lift(n) - 1)
+            inner = a.e + ie * ((b.e - a.e) / nm1.e)
+            return RealT(z3.If(last, b.e, inner) if not z3.is_false(last) else inner)
+    return lazyarr(n, elem)
+
+
+def _minmax2(op):
+    def f(a, b):
+        def pick2(x, y):
+            if type(x) is RealT or type(y) is RealT:
+                with ch.NoTracing():
+                    ex, ey = scalars_lift(x), scalars_lift(y)
+                    if ex is not None and ey is not None:
+                        c = (ex >= ey) if op == 'max' else (ex <= ey)
+                        return RealT(z3.If(c, ex, ey))
+            if op == 'max':
+                return x if x >= y else y
+            return x if x <= y else y
+        A, B_ = _operand(a)[0], _operand(b)[0]
+        shape = _broadcast_shapes(A.shape, B_.shape)
+        ea, eb = _broadcast_to(A, shape)._elems(), _broadcast_to(B_, shape)._elems()
+        out = [pick2(x, y) for x, y in zip(ea, eb)]
+        rdt = core._promote(A.dtype, B_.dtype)
+        if not shape:
+            return _mk_scalar(out[0], rdt)
+        return _wrap_out((a, b), ndarray._from_flat(out, shape, rdt))
+    return f
+
+
+maximum = _minmax2('max')
+minimum = _minmax2('min')
+
+
+def clip(a, lo, hi):
+    r = a
+    if lo is not None:
+        r = maximum(r, lo)
+    if hi is not None:
+        r = minimum(r, hi)
+    return r
